@@ -126,7 +126,7 @@ pub fn site(rng: &mut Rng, is_span: Option<bool>, max_fields: usize) -> Site {
         _ => rng.range(0, max_fields.min(4)),
     };
     // incl. near misses of the `::` boundary rule (single colon, trailing separators)
-    let targets = ["app", "app::db", "app::dbx", "other", "", "app::db::pool", "app:db", "app:", "app::", "apps"];
+    let targets = ["app", "app::db", "app::dbx", "other", "", "app::db::pool", "app:db", "app:", "app::", "apps", "my-app", "my_app", "my_app::db"];
     Site {
         is_span: is_span.unwrap_or_else(|| rng.chance(1, 2)),
         level: rng.below(5) as u8,
@@ -148,7 +148,9 @@ pub fn site(rng: &mut Rng, is_span: Option<bool>, max_fields: usize) -> Site {
             }
             // field lists that coincide once joined by a separator, empty names
             if rng.chance(1, 12) {
-                f = match rng.below(6) {
+                f = match rng.below(8) {
+                    6 => vec!["r#type".into(), "len".into(), "r#ref".into()],
+                    7 => vec!["type".into(), "len".into(), "ref".into()],
                     0 => vec!["a".into(), "b".into()],
                     1 => vec!["a,b".into()],
                     2 => vec!["a".into(), "b,".into()],
